@@ -53,7 +53,12 @@ def grade_and_check(live, sigma, rec, case, cap):
     signal.alarm(budget)
     try:
         with repo.quiet():
-            live.mesh.refine_grading(sigma=sigma, K=4) if sigma != 2 else live.mesh.refine_grading()
+            if sigma == 2:
+                live.mesh.refine_grading()                      # the defaults
+            elif sigma == 1.5:
+                live.mesh.refine_grading(1.5)                   # positional
+            else:
+                live.mesh.refine_grading(sigma=sigma, K=4)
     except Timeout:
         rec.inconclusive += 1
         return
@@ -69,7 +74,7 @@ def grade_and_check(live, sigma, rec, case, cap):
     n_after = len(live.mesh.leaf_elements)
     if n_after != n_before:
         rec.nontriv(khash(case))
-    rec.cls('sigma_%s' % sigma)
+    rec.cls('sigma_%s' % (sigma if sigma in (1.0, 1.5, 2.0) else 'other'))
     if overtaken:
         rec.cls('space_marked_overtaken_by_time_closure')
     rec.metric('leaves_after', n_after)
@@ -178,7 +183,8 @@ def cases(max_ops):
     def build(spec, bias, sigma, data_ops):
         return {'kind': 'history', 'mesh': spec, 'ops': data_ops, 'sigma': sigma, 'bias': bias}
     return st.sampled_from([0.2, 0.5, 0.8]).flatmap(
-        lambda bias: st.builds(build, gens.mesh_specs(), st.just(bias), st.sampled_from([1.0, 1.5, 2.0]),
+        lambda bias: st.builds(build, gens.mesh_specs(), st.just(bias),
+                               st.one_of(st.sampled_from([1.0, 1.5, 2.0, 1.0, 2.0]), st.floats(1.0, 2.0).map(lambda v: round(v, 3))),
                                gens.histories(max_ops=max_ops, allow=('t', 'x', 'tx', 'unif'), time_bias=bias)))
 
 
